@@ -12,25 +12,119 @@ def splitAt (sep : String) (toks : List String) : List (List String) :=
     if t = sep then ([], p.2 ++ [p.1]) else (p.1 ++ [t], p.2)) ([], [])
   acc ++ [cur]
 
-/-- component type = leading letters of the name (`R1` ↦ `R`, `Vs` ↦ `V`): first letter suffices
-    for the one-letter kinds used by the harness -/
-def kindOfName (nm : String) : String := (nm.take 1).toString
+/-! ### netlist lines: the fields that are nodes are read off the GENERATED grammar table -/
 
-/-- `name n1 n2 args...` (two-terminal components only) -/
-def parseElt : List String → Option Elt
-  | nm :: n1 :: n2 :: rest => some ⟨nm, kindOfName nm, [n1, n2], " ".intercalate rest⟩
+/-- `k:<keyword>` / `n` / `x`, optional marker stripped -/
+def codeBase (c : String) : String := if c.endsWith "?" then (c.dropEnd 1).toString else c
+def codeOptional (c : String) : Bool := c.endsWith "?"
+def codeKeyword (c : String) : Option String :=
+  let b := codeBase c
+  if b.startsWith "k:" then some (b.drop 2).toString else none
+
+/-- component type of a name: the LONGEST rule type that is a prefix of the name
+    (parser.py: `re.compile("(%s)([#_\w'?]+)?" % '|'.join(sorted(types, key=len, reverse=True))).match`) -/
+def typeOfName (nm : String) : Option String :=
+  let types := (Gen.Caches.rules.map (·.1)).eraseDups
+  let cands := types.filter (fun t => nm.startsWith t)
+  cands.foldl (fun best t => match best with
+    | none => some t
+    | some b => if t.length > b.length then some t else some b) none
+
+/-- rule selection of `Parser.parse`: the first rule of the type, unless a rule with a keyword at position `pos`
+    finds that keyword (case-insensitively) in the fields: the first such rule -/
+def selectRule (ty : String) (fields : List String) : Option (List String) :=
+  let rs := (Gen.Caches.rules.filter (fun r => r.1 = ty)).map (·.2)
+  match rs with
+  | [] => none
+  | r0 :: _ =>
+    let kw := rs.find? (fun r =>
+      match r.findIdx? (fun c => (codeKeyword c).isSome) with
+      | none => false
+      | some pos =>
+        match fields[pos]?, (r[pos]?).bind codeKeyword with
+        | some f, some k => f.toLower = k.toLower
+        | _, _ => false)
+    some (kw.getD r0)
+
+inductive Line where
+  | ok (e : Elt)
+  /-- raises before the component is constructed -/
+  | early
+  /-- raises after the constructor attached the component to its nodes -/
+  | late (e : Elt)
+
+/-- a value the expression parser rejects: `{...}` whose last character before the brace is an operator -/
+def badValue (t : String) : Bool :=
+  t.startsWith "{" && t.endsWith "}" &&
+    (match ((t.dropEnd 1).toString.toList.reverse.head?) with
+     | some c => c == '+' || c == '-' || c == '*' || c == '/' || c == '('
+     | none => false)
+
+/-- one netlist line (fields already split at blanks) -/
+def parseLine (toks : List String) : Line :=
+  match toks with
+  | [] => .early
+  | nm :: fields =>
+    match typeOfName nm with
+    | none => .early                                   -- Unknown component
+    | some ty =>
+      match selectRule ty fields with
+      | none => .early
+      | some rule =>
+        if fields.length > rule.length then .early       -- Too many args
+        else
+          let idx := List.range rule.length
+          let missing := idx.any (fun m =>
+            match rule[m]? with
+            | some c => (codeBase c = "n" || (codeBase c = "x" && !codeOptional c)) && m ≥ fields.length
+            | none => false)
+          if missing then .early                          -- Missing node / Missing arg
+          else
+            let nodes := idx.filterMap (fun m =>
+              match rule[m]?, fields[m]? with
+              | some c, some f => if codeBase c = "n" then some f else none
+              | _, _ => none)
+            let args := idx.filterMap (fun m =>
+              match rule[m]?, fields[m]? with
+              | some c, some f => if codeBase c = "n" then none else some f
+              | _, _ => none)
+            let e : Elt := ⟨nm, ty, nodes, " ".intercalate args⟩
+            if args.any badValue then .late e             -- Invalid expression (raised inside Cpt.__init__)
+            else if Gen.Caches.reserved.contains nm then .late e   -- Invalid component name (raised by _cpt_add)
+            else .ok e
+
+def parseElt (toks : List String) : Option Elt :=
+  match parseLine toks with
+  | .ok e => some e
   | _ => none
+
+/-- `add` of one or several lines: the lines before the first raising one, and how it raises -/
+def splitLines (lines : List (List String)) : List Elt × Option (Elt × Bool) :=
+  let rec go : List (List String) → List Elt → List Elt × Option (Elt × Bool)
+    | [], acc => (acc.reverse, none)
+    | l :: ls, acc =>
+      match parseLine l with
+      | .ok e => go ls (e :: acc)
+      | .early => (acc.reverse, some (⟨(l.head?).getD "", "", [], ""⟩, false))
+      | .late e => (acc.reverse, some (e, true))
+  go lines []
 
 def parseOp (toks : List String) : Option Op :=
   match toks with
   | ["new"] => some .new
-  | "add" :: i :: rest => do let e ← parseElt rest; some (.add i.toNat! e)
+  | "add" :: i :: rest =>
+    match parseLine rest with
+    | .ok e => some (.add i.toNat! e)
+    | .early => some (.addFail i.toNat! [] ⟨(rest.head?).getD "", "", [], ""⟩ false)
+    | .late e => some (.addFail i.toNat! [] e true)
   | "addraw" :: i :: rest => do let e ← parseElt rest; some (.addRaw i.toNat! e)
   | "addlines" :: i :: rest =>
     let lines := (splitAt "|" rest).filter (· ≠ [])
-    do let es ← lines.mapM parseElt; some (.addLines i.toNat! es)
+    match splitLines lines with
+    | (es, none) => some (.addLines i.toNat! es)
+    | (es, some (e, late)) => some (.addFail i.toNat! es e late)
   | ["remove", i, nm] => some (.remove i.toNat! nm)
-  | ["query", i, q] => some (.query i.toNat! q)
+  | "query" :: i :: q :: _ => some (.query i.toNat! q)
   | "derive" :: i :: pre :: rest =>
     let lines := (splitAt "|" rest).filter (· ≠ [])
     do let es ← lines.mapM parseElt; some (.derive i.toNat! pre es)
@@ -78,12 +172,14 @@ def obsStr (w : World) (i : Nat) : String :=
   | some inst =>
     let names := inst.elts.map (·.name)
     let counts := (nodeNames inst).map (fun n => s!"{n}:{countOf inst.tab n}")
+    let degs := (nodeNames inst).map (fun n => s!"{n}:{degOf inst.tab n}")
+    let unconn := (nodeNames inst).filter (fun n => countOf inst.tab n ≤ 1)
     let dang := (inst.elts.filter (cptDangling inst.tab)).map (·.name)
     let rd := structural removeDanglingPass inst
     let memo := sortStrs (inst.memo.map (·.slot))
     let lru := sortStrs ((w.lru.filter (fun p => p.1 = i)).map (·.2.slot))
     let j (l : List String) := if l.isEmpty then "-" else ",".intercalate l
-    s!"elts={j names} counts={j counts} dang={j dang} rd={j rd} memo={j memo} lru={j lru} n={w.insts.length}"
+    s!"elts={j names} counts={j counts} degs={j degs} unconn={j unconn} dang={j dang} rd={j rd} memo={j memo} lru={j lru} n={w.insts.length}"
 
 def handle (toks : List String) : Option String :=
   match toks with
@@ -103,7 +199,12 @@ def handle (toks : List String) : Option String :=
   | ["c16.cfg"] => some <|
       let unc := (cfg.memoised.filter (fun p => !cfg.isCleared p.1)).map (·.1)
       let j (l : List String) := if l.isEmpty then "-" else ",".intercalate l
-      s!"uncleared={j unc} add={cfg.addInvalidates} addmulti={cfg.addMultiInvalidates} remove={cfg.removeInvalidates} init={cfg.initInvalidates} detach={cfg.overrideDetaches} hashsites={Gen.Caches.hashOrderSites.length} full={cfgOKb cfg (fun _ => true) && cfg.overrideDetaches} partial={cfgOKb cfg (Gexcl cfg knownUncleared)}"
+      s!"uncleared={j unc} removesel={if cfg.removeSel = .all then "all" else "slice"} damages={cfg.damages.length} faildetach={cfg.failedAddDetaches} errinv={cfg.addInvalidatesOnError} add={cfg.addInvalidates} addmulti={cfg.addMultiInvalidates} remove={cfg.removeInvalidates} init={cfg.initInvalidates} detach={cfg.overrideDetaches} hashsites={Gen.Caches.hashOrderSites.length} full={cfgOKb cfg (fun _ => true) && cfg.overrideDetaches} partial={cfgOKb cfg (Gexcl cfg knownUncleared)}"
+  | "c16.line" :: rest => some <|
+      match parseLine rest with
+      | .ok e => s!"ok {e.kind} {",".intercalate e.nodes}"
+      | .early => "early"
+      | .late e => s!"late {e.kind} {",".intercalate e.nodes}"
   | ["c16.covered", q] => some <|
       if (cfg.reads.lookup q).isNone then "unknown-query"
       else toString ((cfg.readsOf q).all (Gexcl cfg knownUncleared))
